@@ -402,11 +402,8 @@ impl LuaEngine {
                     }
                 }
                 
-                if items.is_empty() {
-                    RespFrame::BulkString(None)
-                } else {
-                    RespFrame::Array(Some(items))
-                }
+                // (an empty table is an empty array, not nil)
+                RespFrame::Array(Some(items))
             }
             _ => RespFrame::BulkString(None),
         }
